@@ -10,10 +10,13 @@ a piece is a use of one given segment, described by positions in that segment:
 * `down` – the piece is travelled in construction direction (`cut → leaf`), else against it (`leaf → cut`);
 * `peer` – the piece ends (or starts) on the `peer`-th peering link of the AS entry at `cut`.
 
-Rules: core segments are used whole and without peering; kinds follow `up? · core? · down?`
-(one piece: anything; two: not core·core; three: non-core · core · non-core); consecutive pieces meet
-at one AS, or across a peering link that is recorded by both segments (`Joint.link` read from either
-side); the first piece starts at the source AS, the last ends at the destination AS.
+Rules: core segments are used whole and without peering (in either direction); a non-core segment is
+used either as an *up* segment (against construction direction, from its leaf towards the core) or as a
+*down* segment (in construction direction, towards its leaf); the uses follow `up? · core? · down?`
+(`usesOk`: at least one piece, uses strictly ordered up < core < down — so a path never changes from a
+down segment to anything, nor from anything to an up segment: no valley); consecutive pieces meet at one
+AS, or across a peering link that is recorded by both segments (`Joint.link` read from either side); the
+first piece starts at the source AS, the last ends at the destination AS.
 
 `realises` gives the data-plane segments (flags, SegID, timestamp, hop fields in travel order) and the
 interface list in travel order of a combination.
@@ -127,12 +130,26 @@ def consIds (peering : Bool) : List HopF → List Nat
 def segIds (s : PSeg) : List Nat :=
   if s.consDir then consIds s.peering s.hops else (consIds s.peering s.hops.reverse).reverse
 
-/-- the segment-kind rule (`true` = core) -/
-def kindsOk : List Bool → Bool
+/-- how a piece uses its segment -/
+inductive Use
+  | up | core | down
+deriving DecidableEq, Repr
+
+def Use.rank : Use → Nat
+  | .up => 0
+  | .core => 1
+  | .down => 2
+
+/-- a core segment is a core use in either direction; a non-core segment travelled in construction
+direction (towards its leaf) is a down use, against it an up use -/
+def Piece.use (p : Piece) : Use := if p.seg.core then .core else if p.down then .down else .up
+
+/-- the segment sequencing rule `up? · core? · down?`: at least one piece, uses strictly increasing in
+the order up < core < down (hence at most three pieces, at most one of each use) -/
+def usesOk : List Use → Bool
+  | [] => false
   | [_] => true
-  | [a, b] => !(a && b)
-  | [a, b, c] => !a && b && !c
-  | _ => false
+  | a :: b :: rest => decide (a.rank < b.rank) && usesOk (b :: rest)
 
 /-- consecutive pieces meet -/
 def chained : List Piece → Prop
@@ -142,7 +159,7 @@ def chained : List Piece → Prop
 /-- a combination of the given segments from `src` to `dst` -/
 structure Valid (segs : List InSeg) (src dst : Nat) (c : List Piece) : Prop where
   pieces : ∀ p ∈ c, p.Valid ∧ p.seg ∈ segs
-  kinds : kindsOk (c.map fun p => p.seg.core) = true
+  kinds : usesOk (c.map Piece.use) = true
   start : c.head?.bind Piece.from? = some (.as src)
   finish : c.getLast?.bind Piece.to? = some (.as dst)
   chain : chained c
